@@ -602,6 +602,20 @@ func RuleL1(c *Ctx) {
 				ok = false
 			}
 		}
+		// or one store of the whole point (p.inner = p1.inner, *p = *p1) and nothing else written
+		if len(got) == 0 {
+			nSt, whole := 0, false
+			core.AllInstrs(fn, func(i ssa.Instruction) {
+				if st, isSt := i.(*ssa.Store); isSt {
+					nSt++
+					a, v := core.PathOf(st.Addr), core.PathOf(st.Val)
+					if (a == "p:p.inner" && v == "*(p:p1.inner)") || (a == "p:p" && v == "*(p:p1)") {
+						whole = true
+					}
+				}
+			})
+			ok = whole && nSt == 1 && len(core.CallsIn(fn)) == 0
+		}
 		c.Check(ok, "L1", "Element.Set", fn.Pos(), "Set does not copy X, Y and Z from the same-named coordinates of p1", "X<-X, Y<-Y, Z<-Z")
 	} else {
 		c.Unresolved("L1", "banderwagon.(*Element).Set")
@@ -859,126 +873,229 @@ func RuleZ1(c *Ctx) {
 	}
 	n := 0
 	for _, t := range targets {
-		fn := c.P.Fn(t.rel, "", t.name)
-		if fn == nil {
+		top := c.P.Fn(t.rel, "", t.name)
+		if top == nil {
 			c.Unresolved("Z1", t.rel+"."+t.name)
 			continue
 		}
-		c.Saw(core.FnName(fn))
-		loops := core.Loops(fn)
-		isSrcElem := func(v ssa.Value) (ssa.Value, bool) {
-			// &a[i]  or  &points[i].Z
-			if fa, ok := v.(*ssa.FieldAddr); ok && t.field != "" && strings.HasSuffix(core.PathOf(fa), "."+t.field) {
-				v = fa.X
-			} else if t.field != "" {
+		c.Saw(core.FnName(top))
+		for _, fn := range core.Family(top) {
+			loops := core.Loops(fn)
+			// the source vector, or a re-slice of it held in a local (what a helper working on sub-ranges looks like once inlined)
+			var isSrc func(v ssa.Value, d int) bool
+			isSrc = func(v ssa.Value, d int) bool {
+				if d > 5 {
+					return false
+				}
+				if p := core.PathOf(v); p == t.src || p == "*(&"+t.src+")" {
+					return true
+				}
+				switch x := v.(type) {
+				case *ssa.Slice:
+					return isSrc(x.X, d+1)
+				case *ssa.UnOp:
+					if x.Op == token.MUL {
+						var cell *ssa.Alloc
+						switch a := x.X.(type) {
+						case *ssa.Alloc:
+							cell = a
+						case *ssa.FreeVar:
+							cell, _ = core.FreeVarBinding(a).(*ssa.Alloc)
+						}
+						if cell != nil {
+							if p := core.ParamSpill(cell); p != nil {
+								return "p:"+p.Name() == t.src
+							}
+							if sts := storesInto(cell); len(sts) == 1 {
+								return isSrc(sts[0].Val, d+1)
+							}
+						}
+					}
+				case *ssa.FreeVar:
+					if b := core.FreeVarBinding(x); b != nil {
+						return isSrc(b, d+1)
+					}
+				}
+				return false
+			}
+			isSrcElem := func(v ssa.Value) (ssa.Value, bool) {
+				// &a[i]  or  &points[i].Z
+				if fa, ok := v.(*ssa.FieldAddr); ok && t.field != "" && strings.HasSuffix(core.PathOf(fa), "."+t.field) {
+					v = fa.X
+				} else if t.field != "" {
+					return nil, false
+				}
+				if ia, ok := v.(*ssa.IndexAddr); ok && isSrc(ia.X, 0) {
+					return ia.Index, true
+				}
 				return nil, false
 			}
-			if ia, ok := v.(*ssa.IndexAddr); ok && (core.PathOf(ia.X) == t.src || core.PathOf(ia.X) == "*(&"+t.src+")") {
-				return ia.Index, true
-			}
-			return nil, false
-		}
-		// zero tests and flag tests per index value
-		nonzero := map[ssa.Value]*core.Cuts{}
-		zeroEdge := map[ssa.Value]*core.Cuts{}
-		addCut := func(m map[ssa.Value]*core.Cuts, idx ssa.Value, b *ssa.BasicBlock, succ int) {
-			if m[idx] == nil {
-				m[idx] = core.NewCuts()
-			}
-			m[idx].AddEdge(b, succ)
-		}
-		var flags ssa.Value
-		for _, b := range fn.Blocks {
-			ifi, ok := b.Instrs[len(b.Instrs)-1].(*ssa.If)
-			if !ok {
-				continue
-			}
-			v, pos := core.BoolCond(ifi.Cond)
-			if call, isCall := v.(*ssa.Call); isCall && core.IsMethod(core.Callee(call.Common()), "fr", "Element", "IsZero") {
-				if idx, isSrc := isSrcElem(call.Call.Args[0]); isSrc {
-					z, nz := 0, 1
-					if !pos {
-						z, nz = 1, 0
-					}
-					addCut(nonzero, idx, b, nz)
-					addCut(zeroEdge, idx, b, z)
+			// zero tests and flag tests per index value
+			nonzero := map[ssa.Value]*core.Cuts{}
+			zeroEdge := map[ssa.Value]*core.Cuts{}
+			addCut := func(m map[ssa.Value]*core.Cuts, idx ssa.Value, b *ssa.BasicBlock, succ int) {
+				if m[idx] == nil {
+					m[idx] = core.NewCuts()
 				}
+				m[idx].AddEdge(b, succ)
 			}
-			if u, isLoad := v.(*ssa.UnOp); isLoad && u.Op == token.MUL {
-				if ia, isIA := u.X.(*ssa.IndexAddr); isIA {
-					if _, isBool := ia.X.Type().Underlying().(interface{ Elem() interface{} }); !isBool {
-						if strings.Contains(ia.X.Type().String(), "[]bool") {
-							flags = ia.X
-							nz := 1
-							if !pos {
-								nz = 0
+			var flags ssa.Value
+			for _, b := range fn.Blocks {
+				ifi, ok := b.Instrs[len(b.Instrs)-1].(*ssa.If)
+				if !ok {
+					continue
+				}
+				v, pos := core.BoolCond(ifi.Cond)
+				if call, isCall := v.(*ssa.Call); isCall && core.IsMethod(core.Callee(call.Common()), "fr", "Element", "IsZero") {
+					if idx, isSrc := isSrcElem(call.Call.Args[0]); isSrc {
+						z, nz := 0, 1
+						if !pos {
+							z, nz = 1, 0
+						}
+						addCut(nonzero, idx, b, nz)
+						addCut(zeroEdge, idx, b, z)
+					}
+				}
+				if u, isLoad := v.(*ssa.UnOp); isLoad && u.Op == token.MUL {
+					if ia, isIA := u.X.(*ssa.IndexAddr); isIA {
+						if _, isBool := ia.X.Type().Underlying().(interface{ Elem() interface{} }); !isBool {
+							if strings.Contains(ia.X.Type().String(), "[]bool") {
+								flags = ia.X
+								nz := 1
+								if !pos {
+									nz = 0
+								}
+								addCut(nonzero, ia.Index, b, nz)
 							}
-							addCut(nonzero, ia.Index, b, nz)
 						}
 					}
 				}
 			}
-		}
-		// every Mul with a source-element operand
-		for _, call := range callsTo(fn, "fr", "Element", "Mul") {
-			var idx ssa.Value
-			found := false
-			for _, a := range call.Call.Args[1:] {
-				if ix, ok := isSrcElem(a); ok {
-					idx, found = ix, true
-				}
-			}
-			if !found {
-				continue
-			}
-			n++
-			key := fmt.Sprintf("%s:mul-with-%s[%s]@%s", t.name, t.src, idx.Name(), c.relInFn(fn, call.Pos()))
-			l := core.InnermostLoop(loops, call.Block())
-			guard := nonzero[idx]
-			if l == nil || guard == nil {
-				c.Bad("Z1", key, call.Pos(), "a multiplication by an input element is not guarded by the zero test of that same element: a zero input poisons the whole batch (every inverse becomes 0)")
-				continue
-			}
-			hdr := l.Header.Instrs[len(l.Header.Instrs)-1]
-			cut := mergeCuts(guard, nil)
-			cut.AddInstr(hdr)
-			c.Check(!core.ReachableAvoiding(fn, hdr, cut, call), "Z1", key, call.Pos(), "within an iteration the multiplication by the input element is reachable without passing the non-zero edge of its zero test (or of its skip flag)", "guarded by the non-zero edge for the same index")
-		}
-		// flag stores only on the zero edge
-		if flags != nil {
-			core.AllInstrs(fn, func(i ssa.Instruction) {
-				st, ok := i.(*ssa.Store)
-				if !ok {
-					return
-				}
-				ia, isIA := st.Addr.(*ssa.IndexAddr)
-				if !isIA || core.PathOf(ia.X) != core.PathOf(flags) {
-					return
-				}
-				n++
-				key := fmt.Sprintf("%s:flag-set@%s", t.name, c.relInFn(fn, st.Pos()))
-				b, isK := core.ConstBool(st.Val)
-				l := core.InnermostLoop(loops, st.Block())
-				ze := zeroEdge[ia.Index]
-				if k, isConst := core.ConstBool(st.Val); isConst && !k && l == nil {
-					return // initialisation
-				}
-				// flag[i] = src[i].IsZero(): the flag is the zero test itself
-				if call, isCall := st.Val.(*ssa.Call); isCall && l != nil && core.IsMethod(core.Callee(call.Common()), "fr", "Element", "IsZero") {
-					if idx, isSrc := isSrcElem(call.Call.Args[0]); isSrc && idx == ia.Index {
-						c.OK("Z1", key, st.Pos(), "the flag is assigned the zero test of the same index")
-						return
+			// every Mul with a source-element operand
+			for _, call := range callsTo(fn, "fr", "Element", "Mul") {
+				var idx ssa.Value
+				found := false
+				for _, a := range call.Call.Args[1:] {
+					if ix, ok := isSrcElem(a); ok {
+						idx, found = ix, true
 					}
 				}
-				if !isK || !b || l == nil || ze == nil {
-					c.Bad("Z1", key, st.Pos(), "the skip flag is written with something other than `true` on the zero edge of the same index (or the zero test of that index itself)")
-					return
+				if !found {
+					continue
+				}
+				n++
+				key := fmt.Sprintf("%s:mul-with-%s[%s]@%s", t.name, t.src, idx.Name(), c.relInFn(fn, call.Pos()))
+				l := core.InnermostLoop(loops, call.Block())
+				guard := nonzero[idx]
+				// the index is taken from a local list of positions that is extended exactly on the non-zero edge of the
+				// element at the appended position: every listed position holds a non-zero element, and no non-zero
+				// position is missing from the list
+				if guard == nil {
+					if ld, isLd := core.StripConv(idx).(*ssa.UnOp); isLd && ld.Op == token.MUL {
+						if ia, isIA := ld.X.(*ssa.IndexAddr); isIA {
+							good, nApp := true, 0
+							core.AllInstrs(fn, func(i ssa.Instruction) {
+								switch x := i.(type) {
+								case *ssa.Call:
+									e := appendedElem(x)
+									if e == nil || !(ssa.Value(x) == ia.X || core.FlowsTo(x, ia.X, nil)) {
+										return
+									}
+									nApp++
+									g := nonzero[e]
+									if g == nil {
+										g = nonzero[core.StripConv(e)]
+									}
+									al := core.InnermostLoop(loops, x.Block())
+									if g == nil || al == nil {
+										good = false
+										return
+									}
+									hdr := al.Header.Instrs[len(al.Header.Instrs)-1]
+									cut := mergeCuts(g, nil)
+									cut.AddInstr(hdr)
+									if core.ReachableAvoiding(fn, hdr, cut, x) {
+										good = false // a zero element's position can be listed
+									}
+									// and from the non-zero edge the append cannot be bypassed on the way round the loop
+									skip := core.NewCuts()
+									skip.AddInstr(x)
+									if ze := zeroEdge[e]; ze != nil {
+										skip = mergeCuts(skip, ze)
+									} else if ze := zeroEdge[core.StripConv(e)]; ze != nil {
+										skip = mergeCuts(skip, ze)
+									}
+									skip.AddInstr(hdr)
+									for _, pred := range al.Header.Preds {
+										if !al.Blocks[pred] || skip.Edges[core.Edge{From: pred, To: al.Header}] {
+											continue // the zero edge itself goes straight back
+										}
+										if core.ReachableAvoiding(fn, hdr, skip, pred.Instrs[len(pred.Instrs)-1]) {
+											good = false // a non-zero element's position can be left out
+										}
+									}
+								case *ssa.Store:
+									if sa, isSA := x.Addr.(*ssa.IndexAddr); isSA && (sa.X == ia.X || core.FlowsTo(sa.X, ia.X, nil) || core.FlowsTo(ia.X, sa.X, nil)) {
+										if _, isInt := x.Val.Type().Underlying().(*types.Basic); isInt {
+											if al, isAl := sa.X.(*ssa.Alloc); !isAl || al.Comment != "varargs" {
+												good = false // the list is also written element-wise
+											}
+										}
+									}
+								}
+							})
+							if good && nApp > 0 {
+								c.OK("Z1", key, call.Pos(), "the position comes from the list of positions recorded on the non-zero edge")
+								continue
+							}
+						}
+					}
+				}
+				if l == nil || guard == nil {
+					c.Bad("Z1", key, call.Pos(), "a multiplication by an input element is not guarded by the zero test of that same element: a zero input poisons the whole batch (every inverse becomes 0)")
+					continue
 				}
 				hdr := l.Header.Instrs[len(l.Header.Instrs)-1]
-				cut := mergeCuts(ze, nil)
+				cut := mergeCuts(guard, nil)
 				cut.AddInstr(hdr)
-				c.Check(!core.ReachableAvoiding(fn, hdr, cut, st), "Z1", key, st.Pos(), "the skip flag can be set for a non-zero element (its inverse would be left 0)", "set exactly on the zero edge")
-			})
+				c.Check(!core.ReachableAvoiding(fn, hdr, cut, call), "Z1", key, call.Pos(), "within an iteration the multiplication by the input element is reachable without passing the non-zero edge of its zero test (or of its skip flag)", "guarded by the non-zero edge for the same index")
+			}
+			// flag stores only on the zero edge
+			if flags != nil {
+				core.AllInstrs(fn, func(i ssa.Instruction) {
+					st, ok := i.(*ssa.Store)
+					if !ok {
+						return
+					}
+					ia, isIA := st.Addr.(*ssa.IndexAddr)
+					if !isIA || core.PathOf(ia.X) != core.PathOf(flags) {
+						return
+					}
+					n++
+					key := fmt.Sprintf("%s:flag-set@%s", t.name, c.relInFn(fn, st.Pos()))
+					b, isK := core.ConstBool(st.Val)
+					l := core.InnermostLoop(loops, st.Block())
+					ze := zeroEdge[ia.Index]
+					if k, isConst := core.ConstBool(st.Val); isConst && !k && l == nil {
+						return // initialisation
+					}
+					// flag[i] = src[i].IsZero(): the flag is the zero test itself
+					if call, isCall := st.Val.(*ssa.Call); isCall && l != nil && core.IsMethod(core.Callee(call.Common()), "fr", "Element", "IsZero") {
+						if idx, isSrc := isSrcElem(call.Call.Args[0]); isSrc && idx == ia.Index {
+							c.OK("Z1", key, st.Pos(), "the flag is assigned the zero test of the same index")
+							return
+						}
+					}
+					if !isK || !b || l == nil || ze == nil {
+						c.Bad("Z1", key, st.Pos(), "the skip flag is written with something other than `true` on the zero edge of the same index (or the zero test of that index itself)")
+						return
+					}
+					hdr := l.Header.Instrs[len(l.Header.Instrs)-1]
+					cut := mergeCuts(ze, nil)
+					cut.AddInstr(hdr)
+					c.Check(!core.ReachableAvoiding(fn, hdr, cut, st), "Z1", key, st.Pos(), "the skip flag can be set for a non-zero element (its inverse would be left 0)", "set exactly on the zero edge")
+				})
+			}
 		}
 	}
 	c.FloorN("Z1", 8, n, "guarded multiplications and flag stores")
